@@ -1225,14 +1225,7 @@ impl TypeChecker {
                 Constraint::Cmp(b) => self.cmp(span, ctx, a, *b),
                 Constraint::CmpEqu(b) => self.equ(span, ctx, a, *b).and(self.cmp(span, ctx, a, *b)),
 
-                Constraint::Neg => match self.find_type(a) {
-                    Type::Unknown | Type::Int | Type::Float => Ok(()),
-                    _ => err_type_error!(
-                        self,
-                        span,
-                        TypeError::UniOp { val: self.bake_type(a), op: "-".to_string() }
-                    ),
-                },
+                Constraint::Neg => self.neg(span, a),
 
                 Constraint::ConstantIndex(index, ret) => {
                     self.constant_index(span, ctx, a, *index, *ret)
@@ -1828,6 +1821,25 @@ impl TypeChecker {
                     rhs: self.bake_type(b),
                     op: "+".to_string(),
                 }
+            ),
+        }
+    }
+
+    fn neg(&mut self, span: Span, a: TyID) -> TypeResult<()> {
+        match self.find_type(a) {
+            Type::Unknown | Type::Int | Type::Float => Ok(()),
+
+            Type::Tuple(tys) => {
+                for t in tys.iter() {
+                    self.neg(span, *t)?;
+                }
+                Ok(())
+            }
+
+            _ => err_type_error!(
+                self,
+                span,
+                TypeError::UniOp { val: self.bake_type(a), op: "-".to_string() }
             ),
         }
     }
